@@ -145,11 +145,31 @@ def generate(seed, tier):
         k = len(points)
         c = world['cells'][i]
         if fr.chance(.6):
-            c['f'] = ['f', '@FF%d' % k, c['f']]
+            # the call sits at the top, inside an interceptor, or in a branch
+            pos = fr.randrange(4)
+            call = ['f', '@FF%d' % k, c['f']]
+            if pos == 1:
+                call = ['f', 'IFERROR', call, ['n', 3]]
+            elif pos == 2:
+                call = ['f', 'IF', ['op', '>', c['f'], ['n', 0]], call,
+                        ['n', 2]]
+            elif pos == 3:
+                call = ['op', '+', ['f', 'ISERROR', call], ['n', 0]]
+            c['f'] = call
             points.append({'kind': 'func', 'cell': i, 'id': k,
                            'name': fr.pick(UNKNOWN)})
         else:
-            c['f'] = ['op', '+', c['f'], ['rl', k]]
+            pos = fr.randrange(4)
+            lit = ['rl', k]
+            if pos == 0:
+                c['f'] = ['op', '+', c['f'], lit]
+            elif pos == 1:
+                c['f'] = ['f', 'IFERROR', ['op', '+', c['f'], lit], ['n', 7]]
+            elif pos == 2:
+                c['f'] = ['f', 'IF', ['op', '>', c['f'], ['n', 1]], lit,
+                          c['f']]
+            else:
+                c['f'] = ['op', '+', ['f', 'ISERROR', lit], c['f']]
             points.append({'kind': 'reflit', 'cell': i, 'id': k})
     n = len(points)
     er = Rng(seed, 'subsets')
